@@ -60,13 +60,15 @@ Example c20_wf_inhabited :
               FMap [FSimple (bs "k"); FSet [FBool true; FNull]]; FArray []]) = true.
 Proof. vm_compute. reflexivity. Qed.
 
-(** outside [wf] the round-trip really fails: a simple string containing CR LF *)
+(** outside [wf] the round-trip is not the identity: a simple string containing
+    CR LF reads back with the two bytes written as spaces (still one frame, see C05) *)
 Example c20_simple_crlf_refuted :
   exists f b, ser no_dprint f = (b, true) /\
-              parse_frame no_dparse max_levels b <> Done f [].
+              parse_frame no_dparse max_levels b = Done (FSimple [97; 32; 32; 98]) [] /\
+              FSimple [97; 32; 32; 98] <> f.
 Proof.
   exists (FSimple [97; 13; 10; 98]). eexists. split; [reflexivity|].
-  vm_compute. discriminate.
+  split; [vm_compute; reflexivity|discriminate].
 Qed.
 
 (** a NoResponse frame is not serialisable: the serializer stops half-way
